@@ -600,6 +600,13 @@ func checkHTMLConcat(p *Program, r *Report, pv *Prov) {
 		r.Undec("C10.R5", cn, p.Pos(fn.Pos()), fmt.Sprintf("expected one construction, found %d", len(stores)))
 		return
 	}
+	// every result is that construction (or the zero value): a shortcut that hands back one of the arguments, or a
+	// value reached through a pointer, is not the concatenation computed below
+	if ok, why := returnsOnlyLocalComposite(fn, 0); !ok {
+		r.Undec("C10.R5", cn+"#returns", p.Pos(fn.Pos()), "HTMLConcat can return something other than the value it builds from all arguments ("+why+"); whether that value is their concatenation is not decided")
+	} else {
+		r.OK("C10.R5", cn+"#returns", p.Pos(fn.Pos()), "every result is the value built from the buffer (or the zero value)")
+	}
 	res, _ := stores[0].Store.Val.(*ssa.Call)
 	// the same concatenation written as strings.Join(xs, "") of a slice that holds, element by element and in
 	// order, the contents of the arguments
